@@ -420,3 +420,17 @@ WITNESSES += [
                 (_SPIN_ANCHOR, "def _number(indices):\n    return dict(zip(indices, range(len(indices))))\n\n\n" + _SPIN_ANCHOR),
                 ("        contribution = Expr(0, **expr.assumptions)\n", "        contribution = Expr(numbered[sorted_target[0]] if sorted_target else 0, **expr.assumptions)\n")]),
 ]
+
+# ---------------------------------------------------------------------- F50: representative of equivalent terms in simplify
+SI = "simplify.py"
+_F50_NEW = ("    terms = sorted(\n        expr.terms,\n        key=lambda t: str(t.substitute_contracted(return_sympy=True))\n    )\n")
+WITNESSES += [
+    dict(id="c19-simplify-representative-revert", prop="C19", file=SI, expect="R19k", old=_F50_NEW, new="    terms = expr.terms\n"),
+    # sorted by something that still follows the names (the position in Expr.terms breaks the tie first)
+    dict(id="c19-simplify-representative-by-position", prop="C19", file=SI, expect="R19k", old=_F50_NEW,
+         new="    terms = [t for _, t in sorted(enumerate(expr.terms), key=lambda kt: kt[0])]\n"),
+    # the same canonical order established by an in-place sort with a nested key function
+    dict(id="c19-ok-simplify-representative-inplace", prop="C19", file=SI, expect=None, old=_F50_NEW,
+         new="    def lowest_index_form(term):\n        return str(term.substitute_contracted(return_sympy=True))\n\n"
+             "    terms = list(expr.terms)\n    terms.sort(key=lowest_index_form)\n"),
+]
